@@ -56,6 +56,26 @@ func init() {
 				add("matrix:"+w+"‖"+v, CacheCfg{MaxSize: 2}, two, [][]string{{w}, {v}}, "native", pbRest, 4, budget)
 			}
 		}
+		// triples: two writers and a holder of the eviction lock (the second writer arrives while the first one's failed
+		// hand-off is being made good), and three writers
+		tw := []string{"set 1", "set 3", "inv 1"}
+		th := []string{"invall", "coldest", "cleanup"}
+		if thorough {
+			tw = append(tw, "cw 1")
+			th = append(th, "setmax 1", "getmax")
+		}
+		for i, w := range tw {
+			for _, v := range tw[i:] {
+				for _, h := range th {
+					add("triple:"+w+"‖"+v+"‖"+h, CacheCfg{MaxSize: 2}, two, [][]string{{w}, {v}, {h}}, "native", 1, 4, 2*budget)
+				}
+				for _, u := range tw {
+					if u >= v {
+						add("triple:"+w+"‖"+v+"‖"+u, CacheCfg{MaxSize: 2}, two, [][]string{{w}, {v}, {u}}, "native", 1, 4, 2*budget)
+					}
+				}
+			}
+		}
 		if thorough {
 			add("Coldest‖Sets(buffer-full, assist)‖Set/3", CacheCfg{MaxSize: 8, WriteMax: 4}, two, [][]string{{"coldest"}, {"set 3", "set 4", "set 5", "set 6", "set 7"}, {"set 8"}}, "small", 2, 16, budget)
 			add("Set‖Set(expiry)", CacheCfg{MaxSize: 2, Expiry: "writing", TTL: 100}, two, [][]string{{"set 1"}, {"set 3"}}, "native", 2, 16, budget)
